@@ -543,8 +543,8 @@ func init() {
 	register(&obs.Monitor{
 		ID:    "C19",
 		Level: "exploration",
-		Rule: "per case one of: (a) a Processor run - threads 1..16 x result buffer {0,1,n} x operations {0, <threads, =threads, >>threads} x queue capacity x GOMAXPROCS {1,2,4,16}, unique operation ids, every fifth operation failing, results consumed and counted (exactly-once), then Wait and one more receive that must find the channel closed; " +
-			"half of the runs park every exiting worker after it returned its token until all have (bounded); (b) concurrent.Map with a recording Mapper (Len 0..1000, threads 1..16, chunk caps) - recorded slices must partition the input, one result per chunk; (c) sequential Fulfill/Fail/Wait laws for the 8 flag combinations against a model; " +
+		Rule: "per case one of: (a) a Processor run - threads 1..16 x result buffer {0,1,n} x operations {0, <threads, =threads, >>threads} x queue capacity x GOMAXPROCS {1,2,4,16}, unique operation ids, every fifth operation failing, in a quarter of the runs one operation panicking (its result must carry the panic as an error), results consumed and counted (exactly-once), then Wait and one more receive that must find the channel closed; " +
+			"half of the runs park every exiting worker after it returned its token until all have (bounded); (b) concurrent.Map with a recording Mapper (Len 0..1000, threads 1..16, chunk caps) - recorded slices must partition the input, one result per chunk; (c) sequential Fulfill/Fail/Wait laws (values include nil) for the 8 flag combinations against a model; " +
 			"(d) concurrent histories of 2..4 goroutines issuing Fulfill/Fail/Wait on one immutable promise, timestamps from one atomic counter, checked with porcupine against a write-once register (Wait enabled only when set), half of them with a delay injected inside Wait between take and put-back. " +
 			"Race detector on; panics/double close and all-goroutines-asleep deadlocks are reported from the child's exit. Non-trivial = >=1 operation/chunk/3 history operations; distinct = plan + hook event order / call-return order",
 		Batches: func(t string) int {
